@@ -315,6 +315,7 @@ Example C07_example_history :
           ObVal (VCb 7 (VTag 1 [(10, 1)])) false;
           ObVal (VCb 7 (VTag 1 [(10, 1)])) false].
 Proof. vm_compute. reflexivity. Qed.
+Print Assumptions C07_example_history.
 
 (** the hypotheses of [C07_late_registration_applies] are satisfiable on it ([x] = the
     @overload([5,6]) at position 2, alias 6, six later operations incl. set_dispatch) *)
@@ -328,6 +329,7 @@ Proof.
   split; [simpl; auto|]. split; [reflexivity|]. split; [reflexivity|].
   eexists. split; [vm_compute; reflexivity|]. split; vm_compute; reflexivity.
 Qed.
+Print Assumptions C07_late_registration_hyps.
 
 (** An interface (abstract / default / adopted member with a callback), an accepted
     implementation under a list alias, two rejected ones (omitted abstract member; unknown name):
@@ -347,8 +349,49 @@ Example C07_example_interface :
           ObVal (VCb 7 (VTag 3 [(10, 1)])) false; ObRej; ObRej; ObErr ESwitch; ObErr (EKey 20)] /\
   keeps val (c_ieval tb) (c_ikeys tb) c_cb 10 ex_h2 (@empty_state val) = true.
 Proof. split; vm_compute; reflexivity. Qed.
+Print Assumptions C07_example_interface.
 
-(** set_dispatch on a member is what [keeps] excludes (and then members do disagree) *)
+(** set_dispatch on a member is what [keeps] excludes *)
 Example C07_keeps_needed :
   keeps val (c_ieval tb) (c_ikeys tb) c_cb 10 (firstn 2 ex_h2 ++ [OSetDispatch 11 (DKey 21)]) (@empty_state val) = false.
 Proof. vm_compute. reflexivity. Qed.
+Print Assumptions C07_keeps_needed.
+
+(** … and then members DO disagree: the conclusion of [C07_interface_consistent] fails without
+    its [keeps] hypothesis.  Interface 1 dispatching on K20 with abstract members 101 (dataset
+    11) and 102 (dataset 12); implementations under alias 5 (functions 1, 2) and alias 6
+    (functions 3, 4).  Under {K20: 5, K21: 6} both members run alias 5's implementation (tags 1
+    and 2) — up to there [keeps] holds.  After [set_dispatch(K21)] on member 11, under the same
+    K20 / K21 (K10 changed so that nothing is served from a cache) member 11 runs alias 6's
+    implementation (tag 3) while member 12 still runs alias 5's (tag 2): in the final state the
+    two members' dispatch expressions differ, one is no longer the interface's, and they
+    evaluate to different dispatch values (6 vs 5) under that one dictionary. *)
+Definition ex_h3 : list op :=
+  [OInterface 1 (DKey 20) [(101, MAbstract 11); (102, MAbstract 12)];
+   OImplement [1] [5] [(101, IFun 1); (102, IFun 2)];
+   OImplement [1] [6] [(101, IFun 3); (102, IFun 4)];
+   OEval 11 [(20, 5); (21, 6); (10, 1)]; OEval 12 [(20, 5); (21, 6); (10, 1)];
+   OSetDispatch 11 (DKey 21);
+   OEval 11 [(20, 5); (21, 6); (10, 2)]; OEval 12 [(20, 5); (21, 6); (10, 2)]].
+
+Theorem C07_interface_consistent_without_keeps_refuted :
+  keeps val (c_ieval tb) (c_ikeys tb) c_cb 10 (firstn 5 ex_h3) (@empty_state val) = true /\
+  keeps val (c_ieval tb) (c_ikeys tb) c_cb 10 ex_h3 (@empty_state val) = false /\
+  option_map fst (c_run tb cfg_now 10 ex_h3 (@empty_state val)) =
+    Some [ObOk; ObOk; ObOk; ObVal (VTag 1 [(10, 1)]) false; ObVal (VTag 2 [(10, 1)]) false; ObOk;
+          ObVal (VTag 3 [(10, 2)]) false; ObVal (VTag 2 [(10, 2)]) false] /\
+  exists s f ov1 ov2,
+    option_map snd (c_run tb cfg_now 10 ex_h3 (@empty_state val)) = Some s /\
+    assoc 1 (st_if s) = Some f /\ In (101, 11) (if_members f) /\ In (102, 12) (if_members f) /\
+    ovl_of s 11 = Some ov1 /\ ovl_of s 12 = Some ov2 /\
+    o_disp ov1 <> if_disp f /\ o_disp ov2 = if_disp f /\
+    deval (o_disp ov1) [(20, 5); (21, 6); (10, 2)] <> deval (o_disp ov2) [(20, 5); (21, 6); (10, 2)].
+Proof.
+  split; [vm_compute; reflexivity|]. split; [vm_compute; reflexivity|]. split; [vm_compute; reflexivity|].
+  eexists. eexists. eexists. eexists.
+  split; [vm_compute; reflexivity|]. split; [vm_compute; reflexivity|].
+  split; [vm_compute; auto|]. split; [vm_compute; auto|].
+  split; [vm_compute; reflexivity|]. split; [vm_compute; reflexivity|].
+  split; [vm_compute; discriminate|]. split; [vm_compute; reflexivity|]. vm_compute; discriminate.
+Qed.
+Print Assumptions C07_interface_consistent_without_keeps_refuted.
